@@ -591,6 +591,11 @@ impl Repository {
                 .await
                 .context(error::FileWriteSnafu { path: &tmp_path })?;
         }
+        // `tokio::fs::File` completes a write in the background and reports its failure on the next
+        // operation; flush so that an error of the last write is not lost.
+        f.flush()
+            .await
+            .context(error::FileWriteSnafu { path: &tmp_path })?;
 
         // Reconstruct `NamedTempFile` in order to persist it at the target location.
         let f = NamedTempFile::from_parts(f.into_std().await, tmp_path);
